@@ -467,6 +467,12 @@ class Exec:
             return z3.BitVecVal(int(m.group(1)), 64 if m.group(3) == 'size' else int(m.group(3)))
         if t == '()':
             return UNIT
+        m = re.search(r'(?:^|::|<impl )(u|i)(8|16|32|64|128|size)>?::(MAX|MIN)$', t)
+        if m:
+            w = 64 if m.group(2) == 'size' else int(m.group(2))
+            if m.group(1) == 'u':
+                return z3.BitVecVal((1 << w) - 1 if m.group(3) == 'MAX' else 0, w)
+            return z3.BitVecVal((1 << (w - 1)) - 1 if m.group(3) == 'MAX' else -(1 << (w - 1)), w)
         m = re.fullmatch(r'"(.*)"', t, re.S)
         if m:
             try:
@@ -487,7 +493,7 @@ class Exec:
         # simple named constants defined in this crate's MIR
         if '::' in t and not t.startswith('{'):
             hits = []
-            for nseg in (4, 3, 2):
+            for nseg in (4, 3, 2, 1):
                 tail2 = '::'.join(t.split('::')[-nseg:])
                 hits = [v for k2, v in self.prog.consts.items() if k2 == t or k2.endswith('::' + tail2) or k2 == tail2]
                 if hits:
@@ -655,6 +661,7 @@ class Exec:
             return Agg('[]', None, vals, 'array')
         if kind == 'closure':
             # closures and coroutines: state 0 + captured upvars as fields
+            vals = self._complete_upvars(p, frame, head, ops, vals)
             s = Sym(f'clo{p.seq("clo")}', head)
             for i, v in enumerate(vals):
                 s = s.with_ov(('f', i), v)
@@ -669,6 +676,52 @@ class Exec:
         if len(segs) >= 2 and segs[-1][:1].isupper() and segs[-2][:1].isupper():
             return Agg(segs[-2], segs[-1], vals, 'ctor', names)
         return Agg(segs[-1] if segs else h, None, vals, kind, names)
+
+    def upvar_types(self, f):
+        """{field index: type} of the environment fields a closure body reads through _1"""
+        out = {}
+
+        def scan(x):
+            if isinstance(x, tuple):
+                if len(x) == 2 and isinstance(x[0], str) and x[0] == '_1' and isinstance(x[1], tuple):
+                    for pr in x[1]:
+                        if pr[0] == 'deref':
+                            continue
+                        if pr[0] == 'field':
+                            out.setdefault(pr[1], pr[2])
+                        break
+                for y in x:
+                    scan(y)
+            elif isinstance(x, list):
+                for y in x:
+                    scan(y)
+        for sts in f.blocks.values():
+            for st, _ in sts:
+                scan(st)
+        return out
+
+    def _complete_upvars(self, p, frame, head, ops, vals):
+        """rustc's MIR printer zips upvar *names* with operands and drops the operands beyond the
+        number of names (disjoint captures of `self.x`); recover them: they are the consecutively
+        numbered temporaries assigned right before the aggregate, with the field types the body expects"""
+        f = self.closure_by_head(head)
+        if f is None:
+            return vals
+        need = self.upvar_types(f)
+        if not need or max(need) < len(vals):
+            return vals
+        if not ops or ops[-1][0] not in ('copy', 'move') or ops[-1][1][1]:
+            return vals
+        last = int(ops[-1][1][0][1:])
+        vals = list(vals)
+        norm = lambda t: re.sub(r"'\w+ ?|\s+", '', t or '')
+        for i in range(len(vals), max(need) + 1):
+            loc = f'_{last + 1 + (i - len(ops))}'
+            dt = frame.fn.decl.get(loc)
+            if dt is None or (i in need and norm(dt) != norm(need[i])):
+                break
+            vals.append(self.read_place(p, frame, (loc, ())))
+        return vals
 
     def discriminant(self, v, dest_ty):
         w = int_width(dest_ty or 'isize') or 64
@@ -922,6 +975,9 @@ class Exec:
         if isinstance(clo, Sym):
             h = clo.get_ov('head')
             head = h.text if isinstance(h, Const) else clo.ty
+        elif isinstance(clo, Const):
+            m = re.search(r'(\{closure@[^}]*\})', clo.text)
+            head = m.group(1) if m else None
         if not head:
             return None
         return self.closure_by_head(head)
